@@ -1,6 +1,7 @@
 package props
 
 import (
+	"bytes"
 	"encoding/json"
 	"fmt"
 	"reflect"
@@ -158,7 +159,9 @@ func checkCtl(c *CtlCase) error {
 			crc = true // a format description always carries the trailing checksum bytes
 		}
 		raw := refenc.BuildEvent(hd, body, crc)
+		received := append([]byte{}, raw...)
 		ev := mk(raw)
+		orig := ev
 		if !ev.IsValid() {
 			return fmt.Errorf("%s, algorithm %d: a well-formed event fails the validity gate", c.Kind, alg)
 		}
@@ -172,6 +175,18 @@ func checkCtl(c *CtlCase) error {
 		d, err := decodeCtl(ev, f, c.Kind)
 		if err != nil {
 			return fmt.Errorf("%s, algorithm %d: decoding a well-formed event failed: %v", c.Kind, alg, err)
+		}
+		// the accessors are functions of the event: asked a second time they answer the same
+		if d2, err := decodeCtl(ev, f, c.Kind); err != nil || !reflect.DeepEqual(d, d2) {
+			return fmt.Errorf("%s, algorithm %d: decoding the same event a second time gives %+v (err %v), the first time %+v", c.Kind, alg, d2, err, d)
+		}
+		// stripping and decoding are reads: the bytes that were received still are what the master wrote,
+		// and the event as received still passes the gate and reports the length the master wrote
+		if !bytes.Equal(raw, received) {
+			return fmt.Errorf("%s, algorithm %d: the received bytes were modified by StripChecksum / the accessors", c.Kind, alg)
+		}
+		if !orig.IsValid() || !bytes.Equal(orig.Bytes(), received) {
+			return fmt.Errorf("%s, algorithm %d: after its checksum was stripped the event as received reports valid=%v and no longer holds the bytes the master wrote", c.Kind, alg, orig.IsValid())
 		}
 		results = append(results, d)
 	}
@@ -310,6 +325,14 @@ func TestC16(t *testing.T) {
 			}
 			sv := refenc.Blob{K: 7, S: rapid.Uint32().Draw(rt, "sv_s"), N: n}.Bytes()
 			c.ServerVersion = string(sv)
+			if rapid.IntRange(0, 3).Draw(rt, "sv_real") == 0 {
+				// version strings as servers write them (MariaDB 10+ is known for a "5.5.5-" prefix in its greeting)
+				c.ServerVersion = rapid.SampledFrom([]string{"5.6.33-log", "5.7.44-48-log", "8.0.36-0ubuntu0.22.04.1", "10.4.13-MariaDB-log", "5.5.5-10.4.13-MariaDB-log", "5.5.5-", "5.5.5-m3-log",
+					"5.5.62", "8.4.0", "5.7.30-debug-log", "11.2.2-MariaDB-1:11.2.2+maria~ubu2204-log", "5.6.33-0ubuntu0.14.04.1-log"}).Draw(rt, "sv_realistic")
+				if len(c.ServerVersion) > 50 {
+					c.ServerVersion = c.ServerVersion[:50]
+				}
+			}
 			ns := rapid.IntRange(27, 255).Draw(rt, "nsizes")
 			if rapid.Bool().Draw(rt, "nsizes_b") {
 				ns = rapid.SampledFrom([]int{27, 28, 35, 38, 41, 254, 255}).Draw(rt, "nsizes_bv")
